@@ -1,4 +1,5 @@
 """Reference MODELS (deliberately boring), independent of the code under test."""
+import re
 
 
 def u(b):
@@ -19,7 +20,8 @@ def ref_decode(b):
 def ref_trace_codes(text):
     """'hex-id name [anything]' lines -> {int: name}; last occurrence wins."""
     out = {}
-    for line in text.splitlines():
+    # a line ends at LF, CRLF or CR - not at the other characters str.splitlines() also breaks at (VT, FF, FS..US, NEL, LS, PS)
+    for line in re.split(r'\r\n|\n|\r', text):
         parts = line.split()
         if len(parts) < 2:
             continue
